@@ -19,8 +19,13 @@ MODELLED = ("results carry value, a state given as a list of bits, and the spin 
 NREG = 3
 
 
+NONNEG = [False]      # per case: values drawn from {0, 1/2, 1, ...} so that the smallest value is often exactly 0
+
+
 def gen_result(rng, nbits):
     v = F(rng.randint(-3, 3), rng.choice([1, 1, 2]))
+    if NONNEG[0]:
+        v = abs(v) if rng.random() < 0.7 else F(0)
     return {"v": [v.numerator, v.denominator], "bits": [rng.random() < 0.5 for _ in range(nbits)], "spin": rng.random() < 0.5}
 
 
@@ -30,6 +35,14 @@ def gen_slice(rng):
 
 
 def gen(rng, i, tier):
+    NONNEG[0] = rng.random() < 0.3
+    try:
+        return gen_(rng, i, tier)
+    finally:
+        NONNEG[0] = False
+
+
+def gen_(rng, i, tier):
     nbits = rng.randint(1, 3)
     ops = []
     R = lambda: rng.randrange(NREG)
